@@ -7,7 +7,7 @@ for f in sorted(glob.glob('/verif/seeded/*/meta.json')):
     now="; ".join("%s %s"%(c,"DETECTED" if v["exit"]==1 else "silent") for c,v in m.get("checks_run_quick_tier",{}).items())
     rows.append((sid,m.get("needs_to_manifest","").replace("|","\\|"),m.get("first_run","").replace("|","\\|"),now,m.get("existing_suite_passes_with_patch")))
 def rnd(s):
-    return {"":1,"b":2,"c":3,"d":4,"e":5,"f":5,"g":6,"h":6,"i":7,"j":7,"k":8,"l":8,"m":9,"n":9}[s[3:]]
+    return {"":1,"b":2,"c":3,"d":4,"e":5,"f":5,"g":6,"h":6,"i":7,"j":7,"k":8,"l":8,"m":9,"n":9,"o":10,"p":10}[s[3:]]
 out=open('/verif/seeded/INDEX.md','w')
 out.write("""# Independently written property-breaking changes (`seeded/<id>/`)
 
@@ -36,19 +36,20 @@ misses were run a second time on a quiet machine before they were believed). Rou
 sub-agents were also asked to mention, without proving it, anything in the unchanged code they suspected of violating the
 property (DESIGN section 8: D18-D25 came out of those remarks). Patches are filed as written, against the tree of their round:
 five of them (C04e, C04h, C14d, C14k, C19i) touch lines a later `fix:` commit changed and do not apply to the current HEAD.
+Round 10 (`C..o`, `C..p`, twenty changes for ten properties, same brief as round 9), run in the last hours: the misses that were cheap to close were closed, five are recorded as gaps.
 
 `silent` marks a check that was run in addition and is not expected to fire (the clause the change
 breaks is decided by the other check listed), or - for C11b - the quick tier.
 
 """)
-for r in (1,2,3,4,5,6,7,8,9):
+for r in (1,2,3,4,5,6,7,8,9,10):
     out.write("## Round %d\n\n| id | what it needs to manifest | first run | now (quick tier) |\n|---|---|---|---|\n"%r)
     for sid,needs,first,now,suite in rows:
         if rnd(sid)==r:
             out.write("| %s | %s | %s | %s |\n"%(sid,needs,first,now))
     out.write("\n")
-tot={r:[0,0] for r in (1,2,3,4,5,6,7,8,9)}
+tot={r:[0,0] for r in (1,2,3,4,5,6,7,8,9,10)}
 for sid,needs,first,now,suite in rows:
     tot[rnd(sid)][0]+=1
     if first.startswith("DETECTED"): tot[rnd(sid)][1]+=1
-out.write("Detected by the checks as they stood / changes: "+", ".join("round %d: %d/%d"%(r,tot[r][1],tot[r][0]) for r in tot)+". Every miss led to a stronger check (see the `first run` column and DESIGN.md section 13); all are detected now except C11b (thorough-tier configuration only), C04m (manifests only during shutdown, outside the properties) and C16n (TLS branch of the statsd relay, not reachable through the harness' connection factory).\n")
+out.write("Detected by the checks as they stood / changes: "+", ".join("round %d: %d/%d"%(r,tot[r][1],tot[r][0]) for r in tot)+". Every miss led to a stronger check (see the `first run` column and DESIGN.md section 13); all are detected now except C11b (thorough-tier configuration only), C04m (manifests only during shutdown, outside the properties) C16n (TLS branch of the statsd relay, not reachable through the harness' connection factory) and five changes of the last round (C03o, C12p, C16o, C17o, C19p; see their `first run` entries).\n")
